@@ -1552,6 +1552,10 @@ MUTANTS += [
     M('top-up-fills-the-larger-cluster', U, "            label = np.argmin(n_labels)\n",
       "            label = np.argmax(n_labels)\n", 'C13'),
     M('trim-candidate-argmax', U, "        index = np.argmin(log_r)\n", "        index = np.argmax(log_r)\n", 'C13'),
+    M('neural-members-reduced-over-points', N,
+      "                [bound.contains(points) for bound in self.neural_bounds],\n                axis=0)",
+      "                [bound.contains(points) for bound in self.neural_bounds],\n                axis=1)", 'C07 C08 C01'),
+    M('one-seed-for-all-jobs', N, "2**32 - 1)).spawn(n_jobs)]", "2**32 - 1)).spawn(1) * n_jobs]", 'C08'),
     M('prune-guard-all-empty', S, "                    if np.any(self.shell_n == 0):\n",
       "                    if np.all(self.shell_n == 0):\n", 'C12'),
 ]
